@@ -20,7 +20,7 @@ RULE = (
     "construction with/without calibration, tick(t[,control]), tick(t[,control],{}) and tick with wrapped readings must "
     "compile. In the same binary the history is replayed by hand on a second filter object: the prediction steps the "
     "runtime chose (recorded by a subclass that hides process_model and forwards to it) and reading.sensor_model calls in "
-    "the prescribed order; every tick result (state and covariance) must be bit-identical (hex text) between the real "
+    "the prescribed order; every reported move must satisfy the C10 predicate against the CONFIGURED max_dt_sec, and every tick result (state and covariance) must be bit-identical (hex text) between the real "
     "runtime instance, the recording instance and the by-hand replay. Non-trivial = the configuration has >=1 sensor and "
     "a tick carried >=1 reading; distinct = sha1(spec)."
 )
@@ -40,6 +40,9 @@ def cases(combo, nsens):
                                     n_sensors=(nsens, nsens), n_readings=(1, 3), depth=2, sensor_depth=2, combo=combo,
                                     euler="bounded", innovation=("none", "k")))
         n = len(m["state"])
+        # "any configured maximum step": values that do not fit a fixed number of decimals, and very small ones
+        m["config"]["max_dt"] = draw(st.sampled_from([0.1, 0.05, 0.01, 0.25, 1.0, 1.0 / 3.0, 0.0123456789, 0.7654321098,
+                                                      1.5e-6, 2.5e-7, 3.3e-5]))
         max_dt = m["config"]["max_dt"]
         t0 = draw(st.sampled_from([0.0, 5.0, -2.0]))
         held = t0
@@ -127,9 +130,10 @@ def driver(m, ns="gen", name="filter"):
     A(f"    StateAndVariance r_real = nr < 0 ? mf.tick(out{ctl}) : mf.tick(out{ctl}, rs);")
     A("    // by hand, in the prescribed order, with the step schedule the runtime reported")
     A("    size_t pos = 0;")
-    A("    auto advance = [&](StateAndVariance s, double from, double to) { double acc = 0.0;")
+    A("    auto advance = [&](StateAndVariance s, double from, double to) { double acc = 0.0; size_t first = pos;")
     A("      while (pos < steps.size() && std::fabs((to - from) - acc) >= 1e-9) {")
     A(f"        s = hand.process_model(steps[pos]{', s, cal' if ck else ', s'}{ctl}); acc += steps[pos]; ++pos; }}")
+    A("      printf(\"move %a %a\", from, to); for (size_t q = first; q < pos; ++q) printf(\" %a\", steps[q]); printf(\"\\n\");")
     A("      return s; };")
     A("    for (size_t k = 0; k < rs.size(); ++k) {")
     A("      held = advance(held, held_t, tss[k]);")
@@ -189,7 +193,15 @@ def case(spec, ctx):
     finally:
         H.cleanup(wd)
 
-    lines = out.splitlines()
+    from vlib import rt
+
+    moves = [ln.split()[1:] for ln in out.splitlines() if ln.startswith("move ")]
+    for mv in moves:
+        vals = [float.fromhex(v) for v in mv]
+        prob = rt.move_problem(vals[0], vals[1], vals[2:], m["config"]["max_dt"])
+        if prob:
+            ctx.fail("schedule-vs-configured-max_dt", f"configured max_dt_sec={m['config']['max_dt']!r}: {prob}", spec)
+    lines = [ln for ln in out.splitlines() if not ln.startswith("move ")]
     if len(lines) != 4 * len(spec["ticks"]):
         ctx.fail("cpp:run", f"{len(lines)} output lines for {len(spec['ticks'])} ticks", spec)
     for i in range(len(spec["ticks"])):
